@@ -42,6 +42,7 @@
 #undef protected
 #include "recording_engine.hpp"
 
+#include "hexutil.hpp"
 using namespace iora::network;
 
 static std::vector<std::string> split(const std::string &s, char c)
@@ -436,6 +437,23 @@ static std::string realRun(int nreq, unsigned seed, bool sequential)
   return r;
 }
 
+// W <status> <reason hex|-> <k=v,k=v hex|-> <body hex|->: the bytes HttpResponse::toWireFormat produces (hex)
+static std::string wireOf(int status, const std::string &reasonHex, const std::string &fields, const std::string &bodyHex)
+{
+  auto un = [](const std::string &h) { return h == "-" ? std::string() : verif::unhex(h); };
+  iora::network::HttpResponse res;
+  res.statusCode = status;
+  res.statusText = un(reasonHex);
+  if (fields != "-")
+    for (auto &kv : split(fields, ','))
+    {
+      auto e = split(kv, '=');
+      res.setHeader(un(e[0]), e.size() > 1 ? un(e[1]) : std::string());
+    }
+  res.body = un(bodyHex);
+  return verif::hex(res.toWireFormat());
+}
+
 int main(int argc, char **argv)
 {
   if (argc < 3) return 2;
@@ -451,7 +469,8 @@ int main(int argc, char **argv)
     std::string r;
     try
     {
-      if (p[0] == "G" && p.size() >= 2) r = gated(split(p[1], ';'));
+      if (p[0] == "W" && p.size() >= 5) r = wireOf(std::stoi(p[1]), p[2], p[3], p[4]);
+      else if (p[0] == "G" && p.size() >= 2) r = gated(split(p[1], ';'));
       else if (p[0] == "R" && p.size() >= 4) r = realRun(std::stoi(p[1]), static_cast<unsigned>(std::stoul(p[2])), p[3] == "seq");
       else r = "BADCASE";
     }
